@@ -455,6 +455,12 @@ def judge(b, o, debug):
                 if d:
                     what = f"{w}: emitted records differ from the model's Accept(records): {json.dumps(d)[:600]}"
                     add("C03", "violation" if valid else "drift", "C03:content", what, w, g)
+            elif ok and valid and exp["accept"] and g["len"] > 0:
+                # accepted valid entry whose output cannot be read back: the records do not carry the
+                # entry's content either (C03), whatever C02 says about the syntax
+                add("C03", "violation", "C03:content-unreadable",
+                    f"{w}: the emitted records of a valid entry cannot be parsed, so they do not carry its values, "
+                    "declarations and dimensions", w, g)
             # ---------------- C08 soundness / transparency
             if val and ok and parsed_ok and not unroutable:
                 for l in parse["lines"]:
